@@ -173,11 +173,44 @@ def ob_layer(report):
     return guarded(report, 'one_limiter_per_layer', 'every service built by one RateLimitLayer shares that layer\'s limiter and wait mode', ['RateLimitLayer::layer'], {}, body)
 
 
+def ob_trusted_store(report):
+    """C19 decides anemo-tower's use of governor and trusts governor for the quota arithmetic *and its per-key state*.  That division only holds while the limiter
+    is governor's own keyed limiter: a limiter built over a state store implemented in this crate moves the per-peer state (when it is created, kept, forgotten)
+    out of the trusted base - then nothing here says the quota is enforced, and the honest answer is inconclusive, not held."""
+    def body(ob):
+        ex = e2.executor('anemo-tower', [], max_depth=1)
+        prog = ex.prog
+        local_store = [f for fs in prog.fns.values() for f in fs if f.blocks and re.search(r'(^|::)<impl>::measure_and_replace$', f.name)]
+        ctor = []
+        for fs in prog.fns.values():
+            for f in fs:
+                if not f.blocks or 'rate_limit' not in (f.name + (f.impl_span or '')):
+                    continue
+                for blk in f.blocks.values():
+                    for st, _ in blk:
+                        if st and st[0] == 'call' and isinstance(st[2], str) and 'RateLimiter' in st[2]:
+                            sh = M.strip_generics(st[2])
+                            if re.search(r'(^|::)(keyed|direct)::\w+$|(^|::)RateLimiter::\w+$', sh) and not sh.startswith('<'):
+                                ctor.append((f.name, sh.rsplit('::', 1)[-1]))
+        names = sorted({c for _, c in ctor})
+        own = [c for c in names if c in ('keyed', 'dashmap', 'dashmap_with_clock', 'hashmap', 'hashmap_with_clock')]
+        other = [c for c in names if c in ('new', 'direct', 'direct_with_clock')]
+        if local_store or other:
+            what = (f'a StateStore implemented in this crate ({local_store[0].name})' if local_store else f'RateLimiter::{other[0]}')
+            return ob.done([ex], 'inconclusive', f'the rate limiter is not governor\'s own keyed limiter ({what}): the per-peer quota state is then outside the trusted base this property\'s '
+                           'obligations rest on - whether it is kept as long as the quota needs is not decided here', paths=len(ctor))
+        if not own:
+            return ob.done([ex], 'inconclusive', f'no governor keyed-limiter constructor found in rate_limit.rs (constructors seen: {names})', paths=len(ctor))
+        ob.done([ex], 'held', '', {'constructors': sorted(set(ctor))}, paths=len(ctor))
+    return guarded(report, 'limiter_state_is_governors', 'every RateLimiter in rate_limit.rs is built by governor\'s keyed constructors (keyed / dashmap[_with_clock] / hashmap[_with_clock]) and the crate implements no '
+                   'StateStore of its own', ['RateLimitLayer::new', 'RateLimit::new', 'RateLimit::layer'], {'scope': 'MIR of anemo-tower'}, body)
+
+
 def check(report, tier, only=None):
     report.trusted += ['governor: keyed GCRA rate limiter (quota arithmetic over DashMap and a TSC clock)', 'z3 5.1']
     report.outside += ['the quota arithmetic itself, positivity of the hint at replenishment instants (governor)', 'interleavings of concurrent requests']
     from props import towerglue
-    for n, f in (('admission', ob_call), ('one_limiter', ob_layer),
+    for n, f in (('admission', ob_call), ('one_limiter', ob_layer), ('trusted_store', ob_trusted_store),
                  ('poll_ready', lambda rep: towerglue.ob_poll_ready_transparent(rep, PROP, 'RateLimit', SRC))):
         if only and not any(s in n for s in only):
             continue
